@@ -38,7 +38,7 @@ from vtkmodules.vtkIOLegacy import vtkRectilinearGridReader, vtkRectilinearGridW
 from vtkmodules.vtkIOXML import vtkXMLRectilinearGridReader, vtkXMLRectilinearGridWriter
 
 from harness import gallina as g
-from harness.util import import_df, attempt
+from harness.util import import_df, attempt, relayout, LAYOUTS
 
 df = import_df()
 vcc.vtkObject.GlobalWarningDisplayOff()      # damaged files: VTK's error text is not an observable
@@ -50,7 +50,6 @@ T_SCALAR = "C16-scalar-label-lost"
 T_FIELD = "C16-label-field"
 T_TXTSUB = "C16-txt-subregions"
 T_LEGFAR = "C16-legacy-far-single-point"
-T_STALE = "C16-stale-sidecar"
 DTYPES = {"int32": np.int32, "int64": np.int64, "uint8": np.uint8, "float32": np.float32}
 
 SCALES = [1e-12, 1e-9, 1e-9, 1e-6, 1e-3, 1.0, 1e3, 1e6]
@@ -192,6 +191,7 @@ def variants(rng, c, f):
         if "subs" in c and c["subs"]:
             c["subs"] = gen_subs(rng, f["mesh"])
     c["pathlib"] = rng.random() < 0.5
+    f["layout"] = rng.choice(LAYOUTS)      # memory layout / flags of the arrays handed to Field
     return c
 
 
@@ -358,15 +358,15 @@ def generate(rng, tier):
         subs = gen_subs(rng, f["mesh"]) if rng.random() < 0.5 else []
         cases.append(dict(kind="round", field=f, rep=(REPS + [None])[k % 5], subs=subs, save=True, ops=gen_ops(rng),
                           pseed=rng.randrange(10 ** 6), pathlib=rng.random() < 0.5))
-    # a side-car left at the path by an earlier save (small tagged stream, known finding C16-stale-sidecar)
-    for k in range(5 if quick else 20):
+    # a side-car left at the path by an earlier save (repaired in /repo 7660f6e6: armed, untagged)
+    for k in range(15 if quick else 80):
         f = gen_field(rng, True, nmax, cells_max=cmax)
         if f["vdims"] and "field" in f["vdims"]:
             f["vdims"] = None
         if f["nv"] == 1:
             f["vdims"] = None
-        own = gen_subs(rng, f["mesh"]) if k % 3 == 2 else []
-        cases.append(dict(kind="round", field=f, rep=["bin", "xml", "txt"][k % 3], subs=own, save=(k % 2 == 0) or not own,
+        own = gen_subs(rng, f["mesh"]) if rng.random() < 0.35 else []
+        cases.append(dict(kind="round", field=f, rep=["bin", "xml", "txt"][k % 3], subs=own, save=rng.random() < 0.75,
                           stale=gen_subs(rng, f["mesh"])))
     # --- reader alone, on grids written by the bare VTK writers
     for k in range(50 if quick else 300):
@@ -583,6 +583,7 @@ def build(fd, subs=(), intcorners=False):
     dt = DTYPES.get(fd.get("dtype"), float)
     arr = np.array(fls(fd["vals"]), dtype=float).reshape(*m["n"], fd["nv"]).astype(dt)
     valid = np.array(fd["valid"], dtype=bool).reshape(*m["n"])
+    arr, valid = relayout(arr, fd.get("layout")), relayout(valid, fd.get("layout"))
     if fd.get("dtype"):
         return df.Field(mesh, nvdim=fd["nv"], value=arr, vdims=fd["vdims"], valid=valid, dtype=dt)
     return df.Field(mesh, nvdim=fd["nv"], value=arr, vdims=fd["vdims"], valid=valid)
@@ -857,12 +858,10 @@ def run_round(c):
     # paths as str / pathlib.Path (the reader gets the other type)
     path = pathlib.Path(path_s) if c.get("pathlib") else path_s
     rpath = path_s if c.get("pathlib") else pathlib.Path(path_s)
-    stale = c.get("stale") if nd == 3 and not c.get("ops") else None
+    stale = (c.get("stale") or None) if nd == 3 and not c.get("ops") else None
     if stale is not None:
         # an earlier save of another field (same mesh, with subregions) at the same path
         build(dict(fd, nv=1, vdims=None, vals=fd["vals"][::nv], dtype=None), stale).to_file(path_s)
-        if not (c["save"] and subs):
-            rec["tags"].append(T_STALE)
     kw = dict(save_subregions=c["save"])
     if rep is not None:
         kw["representation"] = rep
@@ -890,8 +889,20 @@ def run_round(c):
     if kind_want is not None and kind_seen != kind_want:
         rec["oracle"].append("representation-kind")
     side_exists = os.path.exists(path_s + ".subregions.json")
-    if stale is None and side_exists != bool(c["save"] and subs):
+    # disk state after the write: written iff save_subregions and (subregions or a side-car was there);
+    # content = this field's subregions ({} when none); save_subregions=False leaves the disk alone
+    if c["save"] and (subs or stale is not None):
+        disk_want = [[nm, fls(a), fls(b)] for nm, a, b in subs]
+    else:
+        disk_want = None if stale is None else [[nm, fls(a), fls(b)] for nm, a, b in stale]
+    if side_exists != (disk_want is not None):
         rec["oracle"].append("side-car-presence")
+    elif side_exists:
+        st_j, js_ = attempt(lambda: json.load(open(path_s + ".subregions.json")))
+        got = None if st_j != "ok" else [[k, [float(x) for x in v["pmin"]], [float(x) for x in v["pmax"]]]
+                                         for k, v in js_.items()]
+        if got != disk_want:
+            rec["oracle"].append("side-car-content")
     if not same_snapshot(before, snapshot(f)):
         rec["oracle"].append("operand-changed")
     # the same call again, elsewhere: same file content
@@ -932,7 +943,7 @@ def run_round(c):
             rec["oracle"].append("round-trip-validity-dtype")
         if ro["vdims"] != (None if f.vdims is None else list(f.vdims)):
             rec["oracle"].append("round-trip-labels")
-        want_subs = [[nm, [F(x) for x in a], [F(x) for x in b]] for nm, a, b in subs] if c["save"] else []
+        want_subs = [[nm, [F(x) for x in a], [F(x) for x in b]] for nm, a, b in (disk_want or [])]
         got_subs = [[nm, a, b] for nm, a, b in ro["subs"]]
         if got_subs != want_subs:          # ordered name -> box list (insertion order is part of a dict)
             rec["oracle"].append("round-trip-subregions")
